@@ -258,15 +258,15 @@ func runC15(w *core.World, r *core.Report) {
 				if !ok {
 					continue
 				}
-				c, isC := core.ConstInt(bo.Y)
+				bx, bop, c, isC := core.CmpConst(bo)
 				if !isC {
 					continue
 				}
-				src, _, isCall := core.ExtractOf(core.Strip(bo.X))
+				src, _, isCall := core.ExtractOf(core.Strip(bx))
 				if !isCall || !strings.Contains(core.CallName(src), "Uint16") {
 					continue
 				}
-				switch bo.Op {
+				switch bop {
 				case token.GTR:
 					limit = c
 				case token.GEQ:
